@@ -99,7 +99,7 @@ class Ctx:
             # proven lemmas "complex term == simple term": rewrite before deciding (sound: each was
             # proved under this path's assumptions)
             cond = z3.substitute(cond, *self.subst)
-        cond = z3.simplify(cond, som=True)
+        cond = z3.simplify(cond, som=True, som_blowup=100000)
         if z3.is_true(cond):
             return True
         if z3.is_false(cond):
